@@ -35,6 +35,7 @@ PASS_THROUGH = (
     r'^iceoryx2_bb_elementary::owning_pointer::OwningPointer::<.*>::(as_ptr|as_mut_ptr)$',
     r'^alloc::sync::Arc::<.*>::as_ptr$',
     r'^core::pin::Pin::<.*>::(get_ref|get_mut|as_ref|as_mut)$',
+    r'^(core|iceoryx2_bb_concurrency)::cell::RefCell::<.*>::(borrow|borrow_mut|as_ptr|get_mut)$',
     r'^core::intrinsics::transmute$',
 )
 _PASS_RE = re.compile('|'.join('(?:%s)' % p for p in PASS_THROUGH))
